@@ -983,3 +983,14 @@ Print Assumptions skep_cred.
 Print Assumptions st_none_skep.
 Print Assumptions st_none_not_cred.
 Print Assumptions ext_exists.
+Print Assumptions gr_exists.
+Print Assumptions pr_exists.
+Print Assumptions co_exists.
+Print Assumptions fundamental_adm.
+Print Assumptions fundamental_cf.
+Print Assumptions co_incl_lfp.
+Print Assumptions lfp_stable.
+Print Assumptions iter_charf_stationary.
+Print Assumptions adm_extends_co.
+Print Assumptions skep_gr_co.
+Print Assumptions grb_fast_grb.
